@@ -203,7 +203,7 @@ def rule_zero_after_report(ctx, rep):
         if const == 0:
             ok = True
         else:
-            from ..logic import consistent_assignments
+            from ..logic import consistent_assignments_state
 
             def atom(e):
                 if isinstance(e, (ast.BoolOp, ast.NamedExpr)) or (isinstance(e, ast.UnaryOp) and isinstance(e.op, ast.Not)):
@@ -218,7 +218,7 @@ def rule_zero_after_report(ctx, rep):
                 return None
 
             # the facts on this path must pin down the outcome of a test on the write_report result
-            tested = len(consistent_assignments(ex.state.must, atom, ["WR"])) == 1
+            tested = len(consistent_assignments_state(ex.state, atom, ["WR"])) == 1
             forwarded = v is not None and isinstance(r.expand(v), ast.Call) and last_attr(r.expand(v).func) == "write_report"
             ok = tested or forwarded
         rep.check("R-ZERO-AFTER-REPORT", run.qname, run.loc(ex.node), ok, f"return {unparse(v) if v is not None else 'None'}",
